@@ -211,7 +211,7 @@ fn part_collector(shard: &Shard, journal: &Journal, rep: &mut Report) {
 			nnames: 2,
 			dup_last: 0,
 			mask_after: None,
-			layers: (0..2).map(|li| LayerD { kinds: vec![kinds[c[li * 2]], kinds[c[li * 2 + 1]]], assert_kind: if c[4] == 1 && li == 1 { 2 } else { 0 }, ext: c[4] == 1 && li == 1, mask_before: None }).collect(),
+			layers: (0..2).map(|li| LayerD { kinds: vec![kinds[c[li * 2]], kinds[c[li * 2 + 1]]], assert_kind: if c[4] == 1 && li == 1 { 2 } else { 0 }, ext: c[4] == 1 && li == 1, mask_before: None, mask_self: None }).collect(),
 		};
 		let code = format!("local o = {}; [std.objectFieldsAll(o), o]", print(&build(&chain)));
 		journal.note(idx, "collector", &code);
